@@ -35,6 +35,12 @@ struct Inner {
     deadlock: bool,
     steps: u64,
     switch_pct: u64,
+    /// PCT (probabilistic concurrency testing): when non-empty, every thread has a priority, the
+    /// runnable thread with the highest one runs, and at each of these step numbers the running thread
+    /// drops below everybody else (d - 1 change points find ordering bugs of depth d)
+    pct_change_points: Vec<u64>,
+    prio: Vec<i64>,
+    next_low_prio: i64,
     /// recorded decisions (thread chosen at each decision point)
     choices: Vec<u32>,
     /// when replaying: decisions to follow
@@ -79,6 +85,16 @@ impl Baton {
                 Some(w) if elig.contains(&(w as usize)) => w as usize,
                 _ => elig[0],
             }
+        } else if !i.pct_change_points.is_empty() {
+            while i.prio.len() < i.threads.len() {
+                let p = 1 + i.rng.below(1_000_000) as i64;
+                i.prio.push(p);
+            }
+            if i.pct_change_points.contains(&i.steps) && me < i.prio.len() {
+                i.prio[me] = i.next_low_prio;
+                i.next_low_prio -= 1;
+            }
+            *elig.iter().max_by_key(|&&t| i.prio[t]).unwrap()
         } else {
             let stay = !must_switch && elig.contains(&me) && i.rng.below(100) >= i.switch_pct;
             if stay { me } else { elig[i.rng.below(elig.len() as u64) as usize] }
@@ -258,6 +274,9 @@ pub struct ThreadReplay {
     /// clients use their own session (commit at the end) instead of autocommit
     pub sessions: bool,
     pub switch_pct: u64,
+    /// scheduling strategy: empty = seeded random with `switch_pct`; otherwise PCT with these change points
+    #[serde(default)]
+    pub pct_change_points: Vec<u64>,
     /// table each client's i-th SELECT COUNT(*) reads (readers and writers meet on the same tables)
     #[serde(default)]
     pub read_tables: Vec<Vec<u32>>,
@@ -289,6 +308,9 @@ pub fn gen_case(verif_seed: u64, idx: u64) -> ThreadReplay {
         shared_table,
         sessions: rng.chance(35),
         switch_pct: *rng.pick(&[10u64, 30, 50, 80]),
+        // a third of the runs use PCT with 1-3 change points placed within the first ~4000 scheduling
+        // steps (a run of 3 clients x 5 statements takes 1000-6000 steps)
+        pct_change_points: if rng.chance(33) { (0..rng.range(1, 3)).map(|_| rng.below(4000)).collect() } else { vec![] },
         events: vec![],
         violation: None,
     }
@@ -317,6 +339,9 @@ pub fn run_case(case: &ThreadReplay, idx: u64) -> RunResult {
             deadlock: false,
             steps: 0,
             switch_pct: case.switch_pct,
+            pct_change_points: case.pct_change_points.clone(),
+            prio: vec![],
+            next_low_prio: 0,
             choices: vec![],
             script: if case.events.is_empty() { None } else { Some(case.events.clone()) },
             script_pos: 0,
@@ -418,6 +443,7 @@ pub fn run_case(case: &ThreadReplay, idx: u64) -> RunResult {
     ME.with(|m| m.set(usize::MAX));
     counters.insert("scheduler_steps".into(), steps);
     counters.insert("context_switches".into(), switches);
+    counters.insert(if case.pct_change_points.is_empty() { "schedules_random".into() } else { format!("schedules_pct_depth_{}", case.pct_change_points.len() + 1) }, 1);
     counters.insert("failed_polls".into(), failed);
     counters.insert("distinct_ordered_site_pairs".into(), pairs as u64);
     counters.insert("max_steps_of_one_call".into(), max_call);
@@ -510,5 +536,5 @@ pub fn run_case(case: &ThreadReplay, idx: u64) -> RunResult {
 }
 
 pub fn sample_of(case: &ThreadReplay) -> serde_json::Value {
-    serde_json::json!({"seed": case.seed, "cfg": case.cfg, "clients": case.clients, "ops_per_client": case.ops, "shared_table": case.shared_table, "sessions": case.sessions, "switch_pct": case.switch_pct})
+    serde_json::json!({"seed": case.seed, "cfg": case.cfg, "clients": case.clients, "ops_per_client": case.ops, "shared_table": case.shared_table, "sessions": case.sessions, "switch_pct": case.switch_pct, "pct_change_points": case.pct_change_points})
 }
